@@ -322,7 +322,9 @@ class Attenuated(Spec):
         if kw.get('min_obs') is not None:
             self.min_required = kw['min_obs']
         elif kw.get('min_period') is not None and len(self.t) >= 2:
-            D = Fr(self.t[1] - self.t[0])
+            steps = sorted(Fr(b - a) for a, b in zip(self.t, self.t[1:]))
+            m = len(steps)
+            D = steps[m // 2] if m % 2 else (steps[m // 2 - 1] + steps[m // 2]) / 2     # the (median) sampling step
             self.min_required = math.trunc(Fr(kw['min_period']) / D)
 
     def is_missing(self, p):
